@@ -328,6 +328,22 @@ func (c *FnCtx) specCall(env *Env, x *ast.CallExpr) Val {
 				fn = fmt.Sprintf("wrapS%d", bits)
 			}
 			return Val{T: app(fn, e.T), Typ: v.Typ}
+		case "chat", "chlen", "chclosed":
+			// channel ghost state (chan.go): chlen(c) values queued, chat(c, i) the i-th of them
+			// counted from the one received next, chclosed(c)
+			ch := c.eval(env, x.Args[0])
+			elem := c.chanElemType(ch, x)
+			c.chanFacts(env.st, ch)
+			h, t := c.ghostGet(env.st, "chhead", ch.T), c.ghostGet(env.st, "chtail", ch.T)
+			switch id.Name {
+			case "chlen":
+				return mathInt(app("-", t, h))
+			case "chclosed":
+				return boolVal(eq(c.ghostGet(env.st, "chclosed", ch.T), "1"))
+			}
+			i := c.eval(env, x.Args[1])
+			_, arr := c.chanQueue(env.st, elem)
+			return Val{T: app("select", arr, c.chanPos(ch.T, app("+", h, i.T))), Typ: elem}
 		case "atlock":
 			// atlock(e): e in the state right after the function's most recent acquisition of a
 			// monitor lock (what the critical section found), see monitor.go
